@@ -32,6 +32,7 @@ type Scenario struct {
 	Clients [][]BatchSpec `json:"clients"`
 	Readers int           `json:"readers"` // reader goroutines
 	ReaderRounds int      `json:"reader_rounds"`
+	Backup       bool     `json:"backup"`       // held readers are backed up (Reader.Backup) before they are closed; the restored copy must show the same
 	Hammer       int      `json:"hammer"`       // > 0: the fresh reader taken after a root replacement (it IS the current root) is searched by that many goroutines at once
 	Churn        int      `json:"churn"`        // free-running only: goroutines that do nothing but Reader()/Close() in parallel with the batches
 	FreeReaders  int      `json:"free_readers"` // free-running only: goroutines that obtain readers in parallel with the batches and search each from 3 goroutines at once
@@ -354,7 +355,7 @@ func Run(t *testing.T, scn Scenario, sched Scheduler, workDir string, uidBase *i
 						c.LogP(proc, "FReaderCall", "r", proc)
 						r, err := s.W.Reader()
 						if err != nil {
-							c.LogP(proc, "FReaderOpen", "r", proc, "obs", ctl.Obs{Err: err.Error()})
+							c.LogP(proc, "FReaderOpen", "r", proc, "obs", ctl.ErrObs(err.Error()))
 							return
 						}
 						o := ctl.Observe(r, scn.Ids, true)
@@ -432,6 +433,25 @@ func Run(t *testing.T, scn Scenario, sched Scheduler, workDir string, uidBase *i
 					rmu.Unlock()
 					o = ctl.Observe(r, scn.Ids, true)
 					c.LogP(proc, "ReaderObs", "r", proc, "obs", o, "reps", or.reps, "final", true)
+					if scn.Backup && scn.Opts.Path != "" {
+						// Backup of a held (possibly superseded) reader while the writer goes on: the restored copy
+						// holds the same segments and the same pending deletions, so it answers identically
+						dst := fmt.Sprintf("%s.bak-%s-%d", scn.Opts.Path, proc, k)
+						_ = os.MkdirAll(dst, 0o755) // Backup does not create its destination
+						if err := r.Backup(dst, nil); err != nil {
+							c.LogP(proc, "ReaderObs", "r", proc, "obs", ctl.ErrObs("backup: " + err.Error()), "reps", 0, "final", true, "backup", true)
+						} else {
+							SegVersion = scn.Opts.SegVersion
+							if rd, err := bluge.OpenReader(cfgFor(dst, false)); err != nil {
+								c.LogP(proc, "ReaderObs", "r", proc, "obs", ctl.ErrObs("restore: " + err.Error()), "reps", 0, "final", true, "backup", true)
+							} else {
+								ob := ctl.Observe(rd, scn.Ids, true)
+								_ = rd.Close()
+								c.LogP(proc, "ReaderObs", "r", proc, "obs", ob, "reps", 0, "final", true, "backup", true)
+							}
+						}
+						_ = os.RemoveAll(dst)
+					}
 					// the reader is not used any more from here on
 					c.LogP(proc, "ReaderClose", "r", proc)
 					err = r.Close()
